@@ -306,7 +306,12 @@ def solve_text(smt2, timeout, workdir, tag, order=('z3-5.1', 'z3-4.8', 'cvc5'), 
        (z3 4.8.12, cvc5) run concurrently; a definite answer of z3 5.1 ends the race, otherwise a sat of any back end
        wins over an unsat of another (reported as undischarged)."""
     import threading
-    path = os.path.join(workdir, re.sub(r'[^A-Za-z0-9_.#\[\]-]', '_', tag)[:150] + '.smt2')
+    # one file per obligation: long names are cut, so the name alone does not identify the obligation - a digest of the
+    # full name and of the text does (two obligations sharing a file would let an external back end answer for the
+    # wrong one)
+    import hashlib
+    dg_ = hashlib.sha1((tag + '\0' + smt2).encode()).hexdigest()[:16]
+    path = os.path.join(workdir, re.sub(r'[^A-Za-z0-9_.#\[\]-]', '_', tag)[:120] + '.' + dg_ + '.smt2')
     with open(path, 'w') as f:
         f.write(smt2)
     details = {}
